@@ -570,8 +570,8 @@ def gen_boundsblind(r, kind, outside_goal=False):
         p.goals2 = [g2]
         if r.below(2):
             p.goal, p.goals2 = g2, [p.goal]
-    p.thr = r.choice([0.03, 0.05])
-    p.rng = r.choice([0.5, 1.0, 1.0, 2.0])
+    p.thr = r.choice([0.02, 0.03, 0.05])
+    p.rng = r.choice([1.0, 1.0, 1.0, 1.0, 0.7, 1.4, 2.0, 0.5])      # the side of the box, mostly
     p.tag = "bounds-blind" + (":outside-goal" if outside_goal else "")
     return p
 
@@ -583,7 +583,7 @@ DIRECT_GOAL_SAMPLERS = {"RRT", "RRTstar", "InformedRRTstar", "SORRTstar", "RRTsh
                         "LazyLBTRRT", "RLRT", "EST", "ProjEST", "KPIECE1", "PDST", "STRIDE", "SST", "pRRT"}
 # bounds-blind runs per planner in the quick tier; SST takes Monte-Carlo steps of random length along a sampled direction
 # (interpolation parameter step / d > 1 extrapolates), so it gets more of the large-range / corner-goal configurations
-BLIND_RUNS = {"SST": 12}
+BLIND_RUNS = {"SST": 36}
 
 
 THREE_ARG = {"KPIECE1", "BKPIECE1", "LBKPIECE1", "PDST", "RLRT", "BiRLRT", "STRIDE"}
@@ -1835,7 +1835,7 @@ def plan_quick(ck, names):
             rb = ck.rng.fork("bb:" + name)
             for k in range(BLIND_RUNS.get(name, 3) + 1):
                 last = k == BLIND_RUNS.get(name, 3)         # the last one: with a goal state outside the bounds
-                bb = gen_boundsblind(rb, ["rv2", "rv2", "rv3", "se2"][k % 4] if not last else "rv2", outside_goal=last)
+                bb = gen_boundsblind(rb, ["rv2", "rv2", "rv3", "rv2", "se2", "rv2"][k % 6] if not last else "rv2", outside_goal=last)
                 budget = rb.choice([300, 1000, 3000])
                 jobs.append(bb.clone(planner=name, seed=rb.below(100000), budget=budget, pollcap=pollcap_for(name, budget)))
         if name not in EXTRA:
